@@ -82,7 +82,7 @@ def run(tier, res, force_search=False):
         for kind in ("deb", "dc"):
             deb = G.make(kind)
             nprs = np.random.RandomState(rng.randint(0, 2**31 - 1))
-            To, Th, Tf = rng.randint(1, 5), rng.randint(1, 5), rng.randint(1, 5)
+            To, Th, Tf = rng.sample(range(1, 6), 3)  # three DIFFERENT time lengths (DeltaChange's output follows obs, the others cm_future)
             dtype = rng.choice([np.float64, np.float32])
             obs0, hist0, fut0 = (G.rand_data(nprs, T, nx, ny, dtype) for T in (To, Th, Tf))
             out_T = To if kind == "dc" else Tf
@@ -133,7 +133,7 @@ def run(tier, res, force_search=False):
         nx, ny = rng.choice([(2, 3), (3, 2), (1, 4)])
         cells = [(i, j) for i in range(nx) for j in range(ny)]
         nprs = np.random.RandomState(rng.randint(0, 2**31 - 1))
-        To, Th, Tf = rng.randint(1, 5), rng.randint(1, 5), rng.randint(1, 5)
+        To, Th, Tf = rng.sample(range(1, 6), 3)
         obs0, hist0, fut0 = (G.rand_data(nprs, T, nx, ny, np.float64) for T in (To, Th, Tf))
         out_T = To if kind == "dc" else Tf
         clean_r = G.run_apply(deb, obs0, hist0, fut0)
@@ -186,6 +186,88 @@ def run(tier, res, force_search=False):
     if mismatches:
         res.tie_broken.append(f"correspondence DrvGrid: {len(mismatches)} mismatches, first: {mismatches[0]}")
         boost = True
+
+    # ---- more worker processes than grid cells (library default 4; 5; 8) on 1x1, 1x2, 1x3 grids: all subsets
+    for (nx, ny) in [(1, 3), (1, 2), (1, 1)]:
+        cells = [(i, j) for i in range(nx) for j in range(ny)]
+        for kind in (("deb", "dc") if (tier != "quick" or boost or (nx, ny) == (1, 3)) else ("deb",)):
+            deb = G.make(kind)
+            nprs = np.random.RandomState(rng.randint(0, 2**31 - 1))
+            To, Th, Tf = rng.sample(range(1, 6), 3)
+            obs0, hist0, fut0 = (G.rand_data(nprs, T, nx, ny, np.float64) for T in (To, Th, Tf))
+            out_T = To if kind == "dc" else Tf
+            clean_r = G.run_apply(deb, obs0, hist0, fut0)
+            if clean_r[0] != "ok":
+                problems.append((f"clean run of the probe raised {clean_r[1]}: {clean_r[2]}", {"kind": kind, "nx": nx, "ny": ny}))
+                continue
+            for nsub, S in enumerate(G.subsets(cells)):
+                obs, hist, fut = obs0.copy(), hist0.copy(), fut0.copy()
+                drive = obs if kind == "dc" else fut
+                marks = {c: G.ERR_CYCLE[(n + nsub) % len(G.ERR_CYCLE)] for n, c in enumerate(S)}
+                for c, m in marks.items():
+                    drive[0, c[0], c[1]] = m
+                classes = [ERRNAME[marks[c]] for c in cells if c in marks]
+                procs = [None, 5, 8] if (tier != "quick" or boost) else [None, (5, 8)[nsub % 2]]
+                case = dict(what="user-defined/" + kind, kind=kind, nx=nx, ny=ny, To=To, Th=Th, Tf=Tf, dtype="float64", S=[list(c) for c in S],
+                            markers=[marks[c] for c in S], nprocs=procs, note="more processes than cells")
+                pcase = {**case, **G.pack(obs, hist, fut), **G.pack(obs0, hist0, fut0, "clean_")}
+                for failsafe in (True, False):
+                    for p in procs:
+                        r = G.run_apply(deb, obs, hist, fut, parallel=True, nproc=p, failsafe=failsafe)
+                        label = f"parallel/{p or 'default'} ({len(cells)} cells)"
+                        if failsafe:
+                            check_failsafe_on(label, r, clean_r[1], set(S), cells, out_T, problems, pcase)
+                        else:
+                            check_failsafe_off(label, r, clean_r[1], classes, False, problems, pcase)
+                    res.count((kind, nx, ny, S, failsafe, "many-procs"), len(S) > 0)
+
+    # ---- failures inside a running window (time arrays passed through apply): the failing cell raises in a window in the MIDDLE of the year;
+    #      subsets in which the first processed cell fails are always included
+    import datetime
+
+    more = G.more_debiasers()
+    for name in ("rw/QuantileMapping", "rw/WindowProbe"):
+        nx, ny = (2, 2)
+        cells = [(i, j) for i in range(nx) for j in range(ny)]
+        nprs = np.random.RandomState(rng.randint(0, 2**31 - 1))
+        lengths = [rng.randint(380, 450) for _ in range(3)]
+        starts = [(datetime.date(rng.randint(1970, 2050), 1, 1) + datetime.timedelta(days=rng.randint(0, 60))).isoformat() for _ in range(3)]
+        obs0, hist0, fut0 = (G.tas_grid(nprs, T, nx, ny, m) + 8 * np.sin(np.arange(T) / 58.0)[:, None, None] for T, m in zip(lengths, (283, 285, 287)))
+        kw = G.time_kwargs(starts, lengths)
+        deb = more[name]()
+        clean_r = G.run_apply(deb, obs0, hist0, fut0, **kw)
+        if clean_r[0] != "ok":
+            problems.append((f"{name}: clean run raised {clean_r[1]}: {clean_r[2]}", {"what": "builtin/" + name}))
+            continue
+        all_subsets = list(G.subsets(cells))
+        if tier == "quick" and not boost:
+            chosen = [((0, 0),), ((0, 0), (1, 1)), ((0, 1),), tuple(cells)]
+        else:
+            chosen = all_subsets
+        procs = [2] if (tier == "quick" and not boost) else [1, 2, 3]
+        for S in chosen:
+            obs, hist, fut = obs0.copy(), hist0.copy(), fut0.copy()
+            arr, tkey, bad = (obs, "time_obs", np.nan) if name == "rw/QuantileMapping" else (fut, "time_cm_future", float(G.M_ERR))
+            mid = [t for t, d in enumerate(kw[tkey]) if 120 <= d.timetuple().tm_yday <= 250]
+            for c in S:
+                arr[rng.choice(mid), c[0], c[1]] = bad
+            _, errs = G.stacked(more[name], obs, hist, fut, fut.shape[0], fut.dtype, **kw)
+            case = dict(what="builtin/" + name, kind="deb", nx=nx, ny=ny, starts=starts, lengths=lengths, planted=f"{bad} mid-year in {tkey[5:]}",
+                        S=[list(c) for c in S], nprocs=procs, seed=C.seed())
+            if set(errs) != set(S):
+                res.notes.append(f"{name}: planted {sorted(S)}, raising {sorted(errs)} — case skipped")
+                continue
+            classes = [type(errs[c]).__name__ for c in cells if c in errs]
+            pcase = {**case, **G.pack(obs, hist, fut), **G.pack(obs0, hist0, fut0, "clean_")}
+            for failsafe in (True, False):
+                runs = [("serial", True, G.run_apply(more[name](), obs, hist, fut, failsafe=failsafe, **kw))]
+                runs += [(f"parallel/{p}", False, G.run_apply(more[name](), obs, hist, fut, parallel=True, nproc=p, failsafe=failsafe, **kw)) for p in procs]
+                for label, serial, r in runs:
+                    if failsafe:
+                        check_failsafe_on(f"{name} {label}", r, clean_r[1], set(S), cells, fut.shape[0], problems, pcase)
+                    else:
+                        check_failsafe_off(f"{name} {label}", r, clean_r[1], classes, serial, problems, pcase)
+                res.count((name, S, failsafe, "running-window"), len(S) > 0, sample={**case, "failsafe": failsafe} if S == ((0, 0),) and failsafe and "Quantile" in name else None)
 
     # ---- built-in failures: non-finite data rejected inside the real debiasers
     debs = G.real_debiasers()
@@ -267,19 +349,21 @@ def replay(data):
     cells = [(i, j) for i in range(nx) for j in range(ny)]
     S = [tuple(c) for c in fi["S"]]
     out_T = obs.shape[0] if fi.get("kind") == "dc" else fut.shape[0]
-    clean_r = G.run_apply(deb, obs0, hist0, fut0)
+    kw = G.time_kwargs(fi["starts"], [obs.shape[0], hist.shape[0], fut.shape[0]]) if fi.get("starts") else {}
+    fresh = lambda: G.debiaser_for(fi)  # noqa: E731
+    clean_r = G.run_apply(fresh(), obs0, hist0, fut0, **kw)
     if clean_r[0] != "ok":
         print("REPRODUCED: the clean run raises", clean_r[1:])
         return 1
-    _, errs = G.stacked(deb, obs, hist, fut, out_T, fut.dtype)
+    _, errs = G.stacked(fresh, obs, hist, fut, out_T, fut.dtype, **kw)
     classes = [type(errs[c]).__name__ for c in cells if c in errs]
     if set(errs) != set(S):
         print(f"note: cells that raise on their own: {sorted(errs)}; recorded S: {sorted(S)}")
     problems = []
     case = {k: v for k, v in fi.items() if not k.endswith(("obs", "hist", "fut"))}
     for failsafe in (True, False):
-        runs = [("serial", True, G.run_apply(deb, obs, hist, fut, failsafe=failsafe))]
-        runs += [(f"parallel/{p}", False, G.run_apply(deb, obs, hist, fut, parallel=True, nproc=p, failsafe=failsafe)) for p in fi.get("nprocs") or [2]]
+        runs = [("serial", True, G.run_apply(fresh(), obs, hist, fut, failsafe=failsafe, **kw))]
+        runs += [(f"parallel/{p or 'default'}", False, G.run_apply(fresh(), obs, hist, fut, parallel=True, nproc=p, failsafe=failsafe, **kw)) for p in fi.get("nprocs") or [2]]
         for label, serial, r in runs:
             if failsafe:
                 check_failsafe_on(label, r, clean_r[1], set(errs), cells, out_T, problems, case)
